@@ -48,3 +48,28 @@ package index
 // KeySet (C04): view(ks) = {} if head == nil, else {head} + tail.
 
 //@ spec inTail(t []Key, k []byte) bool = exists i int :: 0 <= i && i < len(t) && bytesEq(t[i], k)
+//@ spec inView(ks KeySet, k []byte) bool = ks.head != nil && (bytesEq(ks.head, k) || inTail(ks.tail, k))
+
+//@ func Key.Equal
+//@   property C04
+//@   pure
+//@   ensures result <==> bytesEq(k, k2)
+
+//@ func KeySet.First
+//@   property C04
+//@   pure
+//@   ensures result == ks.head
+
+//@ func KeySet.Exists
+//@   property C04
+//@   pure
+//@   ensures result <==> inView(ks, k)
+//@   loop 1 invariant 0 <= $i && $i <= len(ks.tail)
+//@   loop 1 invariant forall j int :: 0 <= j && j < $i ==> !bytesEq(ks.tail[j], k)
+
+// NewKeySet: the view is exactly the argument list; in particular a first key that is nil
+// (index.String("") is nil) still counts as one (empty) key.
+//@ func NewKeySet
+//@   property C04
+//@   ensures len(keys) == 0 ==> result.head == nil
+//@   ensures len(keys) > 0 ==> result.head != nil && bytesEq(result.head, keys[0]) && result.tail == keys[1:]
